@@ -39,7 +39,7 @@ type Scenario struct {
 	A        int     `json:"a,omitempty"`
 	B        int     `json:"b,omitempty"`
 	Fail     []int   `json:"fail,omitempty"`    // values (map/fmap/unfold) or indices (emit) on which the user function fails
-	ErrKind  int     `json:"errkind,omitempty"` // 0 plain, 1 wraps context.Canceled, 2 wraps io.EOF, 3 wraps context.DeadlineExceeded
+	ErrKind  int     `json:"errkind,omitempty"` // 0 plain, 1 wraps context.Canceled, 2 wraps io.EOF, 3 wraps context.DeadlineExceeded, 4 slice-typed (non-comparable) error
 	CtxErr   bool    `json:"ctxerr,omitempty"`  // arrows return ctx.Err() (true) or nil (false) when they see the cancel
 	Ops      int     `json:"ops,omitempty"`     // throttle
 	Interval int     `json:"interval,omitempty"`
@@ -107,6 +107,7 @@ type env struct {
 	callLog      []int
 	callAt       []time.Duration
 	errs         map[int]*stageErr
+	slow         func(int) time.Duration // virtual time a user-function call takes (C11)
 	gated        bool
 	pendingCalls []*gcall // user calls blocked on their gate, in arrival order
 	maxInflight  int
@@ -115,7 +116,16 @@ type env struct {
 	aborted      bool  // an arrow abandoned an element because it saw the cancel
 }
 
+// sliceErr is an error of a non-comparable dynamic type (like go/scanner.ErrorList): comparing two of
+// them with == panics at run time.
+type sliceErr []int
+
+func (e sliceErr) Error() string { return fmt.Sprintf("E%v", []int(e)) }
+
 func (e *env) errFor(v int) error {
+	if e.sc.ErrKind == 4 {
+		return sliceErr{v}
+	}
 	e.mu.Lock()
 	defer e.mu.Unlock()
 	if x, ok := e.errs[v]; ok {
@@ -140,6 +150,11 @@ func (e *env) called(v int) {
 	e.callLog = append(e.callLog, v)
 	e.callAt = append(e.callAt, time.Since(e.start))
 	e.mu.Unlock()
+	if e.slow != nil {
+		if d := e.slow(v); d > 0 {
+			time.Sleep(d)
+		}
+	}
 }
 
 func (e *env) fails(v int) bool {
@@ -154,6 +169,9 @@ func (e *env) fails(v int) bool {
 // decodeErr maps an error received from the stage back to the value it was generated for.
 // -1: an error the harness never produced; -2: a context error returned by a harness arrow after cancel.
 func (e *env) decodeErr(err error) int {
+	if sl, ok := err.(sliceErr); ok && len(sl) == 1 && e.sc.ErrKind == 4 {
+		return sl[0]
+	}
 	var se *stageErr
 	if errors.As(err, &se) {
 		e.mu.Lock()
